@@ -137,6 +137,7 @@ class Complex:
     attr_group: str | None = None
     abstract: bool = False
     restricts: "Complex | None" = None   # complexContent restriction of that base: the particle re-declares what is kept
+    mixed_via_content: bool = False      # spelled <complexContent mixed="true"><restriction base="xs:anyType">
 
 
 @dataclass
@@ -253,6 +254,10 @@ def render_complex(c: Complex, name_attr: str = "") -> str:
         return (f"<xs:complexType{name_attr}{extra}><xs:simpleContent><xs:extension base=\"{c.simple_content.ref()}\">{attrs}"
                 "</xs:extension></xs:simpleContent></xs:complexType>")
     body = render_particle(c.particle) if c.particle else ""
+    if c.mixed_via_content:
+        extra0 = extra.replace(' mixed="true"', "")
+        return (f"<xs:complexType{name_attr}{extra0}><xs:complexContent mixed=\"true\"><xs:restriction base=\"xs:anyType\">{body}{attrs}"
+                "</xs:restriction></xs:complexContent></xs:complexType>")
     if c.restricts is not None:
         return (f"<xs:complexType{name_attr}{extra}><xs:complexContent><xs:restriction base=\"t:{c.restricts.name}\">{body}{attrs}"
                 "</xs:restriction></xs:complexContent></xs:complexType>")
@@ -347,6 +352,7 @@ FEATURES = [
     "nillable", "mixed", "recursion", "include", "import", "simple-content", "typed-values", "nested-anonymous", "sequence-repeating", "element-default",
     "qname-value", "binary-values", "abstract-base", "attr-form-override", "element-form-override", "substitution-head-imported", "simple-content-attr-value",
     "restriction", "nested-same-name", "same-type-name-imported", "optional-run", "foreign-child-local-grandchild", "foreign-child-local-grandchild-no-namespace",
+    "choice-single-of-sequence", "mixed-complex-content-restriction", "substitution-member-own-named-type",
 ]
 
 
@@ -432,6 +438,23 @@ def apply_feature(s: Schema, feat: str) -> None:
         seq.items.append(Elem("ns", SimpleT(base="string"), nillable=True, min=0))
     elif feat == "mixed":
         rt.mixed = True
+        s.ordered = False
+    elif feat == "mixed-complex-content-restriction":
+        rt.mixed = True
+        rt.mixed_via_content = True
+        s.ordered = False
+    elif feat == "choice-single-of-sequence":
+        # one choice, taken once, one of whose branches is a sequence of two elements
+        seq.items.append(Group("choice", [Group("sequence", [Elem("p", SimpleT(base="string")), Elem("q", SimpleT(base="int"))]), Elem("r", SimpleT(base="boolean"))]))
+        s.ordered = False
+    elif feat == "substitution-member-own-named-type":
+        # the member element has a named complex type of its own name (element and type are merged into one class)
+        ht = Complex(particle=Group("sequence", [Elem("hv", SimpleT(base="string"), min=0)]), name="headT")
+        mt = Complex(particle=Group("sequence", [Elem("mv", SimpleT(base="int"), min=0)]), name="member2", base=ht)
+        s.types += [ht, mt]
+        s.globals.append(Elem("head2", ht))
+        s.globals.append((Elem("member2", mt), "head2"))
+        seq.items.append(Elem("head2", ht, min=0, max=2, ref=True, subst=["member2"]))
         s.ordered = False
     elif feat == "recursion":
         rt.name = "RootType"
@@ -537,7 +560,7 @@ def gen_schema(ch: Chooser, max_features: int) -> Schema:
             raise Prune("same feature twice")
         if i and FEATURES.index(f) < FEATURES.index(used[-1]):
             raise Prune("features are applied in canonical order (each unordered pair once)")
-        conflicts = [{"named-type", "recursion"}, {"all", "choice"}, {"all", "mixed"}, {"extension-xsi-type", "abstract-base"}, {"enum-string", "enum-int"}, {"element-default", "extension-xsi-type"}]
+        conflicts = [{"named-type", "recursion"}, {"all", "choice"}, {"all", "mixed"}, {"all", "mixed-complex-content-restriction"}, {"mixed", "mixed-complex-content-restriction"}, {"choice-of-sequences", "choice-single-of-sequence"}, {"substitution-group", "substitution-member-own-named-type"}, {"extension-xsi-type", "abstract-base"}, {"enum-string", "enum-int"}, {"element-default", "extension-xsi-type"}]
         if any(f in c and u in c for c in conflicts for u in used):
             raise Prune("conflicting features")
         if "all" in used or (f == "all" and used and any(u not in ("no-namespace", "unqualified-elements", "qualified-attributes", "named-type", "attr-required", "attr-default", "attr-fixed", "attr-group", "any-attribute") for u in used)):
